@@ -97,7 +97,11 @@ TSetConfig == /\ IsEv("SetConfig") /\ SetConfig(Ev.op.val) /\ Post
 TInhibit   == /\ IsEv("Inhibit") /\ Inhibit(Ev.op.now) /\ clock' = Ev.op.now /\ UNCHANGED <<world, env>> /\ Post
 TSetBoot   == /\ IsEv("SetBoot") /\ SetBoot(ToSet(Ev.boot)) /\ Post
 
-TNext == TReset \/ TRequestOk \/ TRequestRefused \/ TDo \/ TFail \/ TUndo \/ TSettle
+\* RefreshCandidates (the refresh-all store query) is read-only
+TCandidates == /\ IsEv("Candidates") /\ Idle /\ chg' = [chg EXCEPT !.status = "none"]
+               /\ UNCHANGED <<rec, world, env, clock>> /\ Post
+
+TNext == TCandidates \/ TReset \/ TRequestOk \/ TRequestRefused \/ TDo \/ TFail \/ TUndo \/ TSettle
          \/ TSetRetain \/ TSetConfig \/ TInhibit \/ TSetBoot
 
 TSpec == TInit /\ [][TNext]_tvars
